@@ -24,6 +24,7 @@ def pSOp : P SOp := do
 def c18Names : List Str := ["a".toList, "b".toList]
 def c18Paths : List (List Sc) :=
   c18Names.map (fun a => [Sc.str a]) ++
+  ["size", "first"].map (fun a => [Sc.str a.toList]) ++
   c18Names.flatMap (fun a => ["a", "b", "size"].map fun b => [Sc.str a, Sc.str b.toList])
 
 def dedupSorted : List Str → List Str
